@@ -18,7 +18,7 @@ HOOKS = {
 
 ENGINES = [
     {'name': 'vf', 'path': 'vf/harness.py',
-     'serves_properties': ['C01', 'C02', 'C03', 'C04', 'C05', 'C06', 'C07', 'C08', 'C09', 'C13', 'C15', 'C16', 'C20'],
+     'serves_properties': ['C01', 'C02', 'C03', 'C04', 'C05', 'C06', 'C07', 'C08', 'C09', 'C13', 'C15', 'C16', 'C17', 'C20'],
      'kind_free_text': ('runtime monitoring driver: 16 worker processes import the real '
                         'openhtf from /repo, run enumerated + seeded cases, monitors '
                         'decide each property from observed events; witnesses are '
@@ -197,5 +197,19 @@ CHECKS = {
                  'that value, rejections change nothing, raising validators give FAIL and surface at the assignment (scalar) or '
                  'as a phase error at phase end (dimensioned), nothing stays PARTIALLY_SET'),
         'note': 'validator verdicts are taken from deep copies of the declared validators (their own correctness is C07)',
+    },
+    'C17': {
+        'level': 'fault_enumeration',
+        'technique': 'runtime monitoring with fault and crash-point injection: destination path inspected after every injected exception (serializer / k-th write / close / move / rename, for every k) and after SIGKILL at every file-system system call of the callback (strace attach + inject, positions taken from a dry traced run)',
+        'text': ('OutputToJSON, OutputToFile (pickle) and atomic_write are run on real records of 1-3 phases with the '
+                 'destination absent or holding an old complete record and the staging directory on the same file system; '
+                 'faults: serializer raises after k chunks and k-th write raises for every k up to 400, close raises, '
+                 'shutil.move / os.rename raise, a real mid-stream serializer failure (attachments already closed), no fault '
+                 '(byte-for-byte comparison and file name for brace / percent / callable patterns); crash points: the callback '
+                 'runs in a child process that strace kills at each of its file-system system calls (2 writer variants in the '
+                 'quick tier, 12 in the thorough tier); after each fault the destination must be absent (if it was), old, or '
+                 'the complete new serialization'),
+        'note': ('write/close faults are injected through the documented extension points (open_file, '
+                 'serialize_test_record) and module attribute shims; needs ptrace (strace -p) in the sandbox'),
     },
 }
